@@ -15,6 +15,9 @@ IMPORTANT - this is a second, harder round. An earlier round already planted pla
   - two cooperating edits in different functions/files that are each harmless alone.
 Do not repeat the plain local slips of the first round.
 """
+if ROUND >= 3:
+    EXTRA += """
+This is in fact the THIRD round. The second round planted (and the verification now catches): stale caches/memos keyed by object identity or by an incomplete key, class-level flags shared between instances, feature-table dictionaries aliased between a derived track and its source, results not reset when the output feature already exists, callers' lists / numpy arrays / matrices mutated in place, integer dtypes inferred by numpy from int inputs (truncation, wrap-around), stale state across repeated calls on the same Track / Network / index / kernel / matrix object (also with in-place edits in between), order of aggregate operators, per-track feature layouts. Find something DIFFERENT in kind: e.g. an interaction with another public feature of the library that is not named in the property but legitimately precedes the call in real programs (coordinate-system conversions, time-zone or format settings, units, track ids, copy()/deepcopy semantics, iteration protocols, pickling, equality/hash of objects used as dict keys), numerical regimes the property covers but generators seldom hit (very large or very small magnitudes, values straddling a threshold by one ulp, negative zero, subnormal steps, huge counts), error paths that swallow an exception and return a plausible value, or defaults that change meaning (None vs 0 vs missing argument, positional vs keyword)."""
 print(f"""You are testing how good a project's verification is by planting realistic bugs. The project is the pure-Python GPS trajectory library tracklib (git repository at /repo). Work ONLY in your own scratch git worktree: create it with
   git -C /repo worktree add --detach {wt} HEAD
 and make all edits under {wt}. Never edit, commit, checkout or stash anything in /repo itself (and never run `git stash` at all, not even inside your worktree: the stash is shared with /repo - undo with `git checkout -- .` or `git apply -R`), and do not read or touch anything under /verif (you must work independently of it). Python is /venv/bin/python (pytest available); there is no network.
